@@ -81,6 +81,44 @@ func c08loadDoc(base *Scn, doc string, env map[string]string, opts ...func(*load
 	return p, err
 }
 
+// c08loadAfterInclude delivers doc after an include whose project has its own environment files (defining, with other
+// values, the variables the documents use): as an override file (mode 0) or as a later document of the main file (mode 1).
+// What a document's variables resolve to depends on the project environment only, never on the files loaded before it.
+func c08loadAfterInclude(base *Scn, doc string, env map[string]string, mode int) (*types.Project, error) {
+	files := map[string]string{}
+	for k, v := range base.Files {
+		files[k] = v
+	}
+	first := "include:\n  - path: ./decoy/inc.yaml\n    env_file: ./decoy/vars.env\n  - ./decoy2/inc.yaml\nservices:\n  decoyhost: {image: d}\n"
+	files["decoy/inc.yaml"] = "services:\n  decoysvc:\n    image: \"d:${UNSETVAR}\"\n"
+	files["decoy/vars.env"] = "UNSETVAR=decoy\nV=decoyV\n"
+	files["decoy2/inc.yaml"] = "services:\n  decoysvc2:\n    image: \"d:${UNSETVAR}\"\n"
+	files["decoy2/.env"] = "UNSETVAR=decoy2\nV=decoyV2\n"
+	main := []string{"compose.yaml"}
+	if mode == 0 {
+		files["compose.yaml"] = first
+		files["second.yaml"] = doc
+		main = append(main, "second.yaml")
+	} else {
+		files["compose.yaml"] = first + "---\n" + doc
+	}
+	e := map[string]string{}
+	for k, v := range base.Env {
+		e[k] = v
+	}
+	for k, v := range env {
+		e[k] = v
+	}
+	s := &Scn{Files: files, Main: main, Env: e}
+	root := s.Materialise()
+	p, err := s.LoadAt(root)
+	if err == nil {
+		p = relocate(p)
+		delete(p.Environment, "V")
+	}
+	return p, err
+}
+
 func (c08) Run(c *core.Ctx) {
 	sch, err := schemagen.Load(RepoDir() + "/schema/compose-spec.json")
 	if err != nil {
@@ -100,10 +138,13 @@ func (c08) Run(c *core.Ctx) {
 		var lit *types.Project
 		var litErr error
 		litLoaded := false
+		var litInc [2]*types.Project
+		var litIncErr [2]error
+		var litIncLoaded [2]bool
 		doc := yamlToMap(text)
 		leaves := c08leaves(doc)
 		for li, lf := range leaves {
-			for form := 0; form < 3; form++ {
+			for form := 0; form < 5; form++ {
 				if c.Expired() {
 					return
 				}
@@ -136,7 +177,8 @@ func (c08) Run(c *core.Ctx) {
 					case 0:
 						repl = "${V}"
 						env["V"] = litText
-					case 1:
+					case 1, 3, 4:
+						// 3, 4: the same, delivered after an include with its own environment files
 						repl = "${UNSETVAR:-" + litText + "}"
 						if strings.Contains(litText, "}") {
 							return core.Outcome{Class: "skip", Trivial: true}
@@ -149,8 +191,23 @@ func (c08) Run(c *core.Ctx) {
 					lf.set(repl)
 					varDoc := mapToYAML(doc)
 					lf.set(lf.val)
-					p, err := c08loadDoc(base, varDoc, env)
-					sample := map[string]any{"doc": dn, "path": pathStr, "literal": lf.val, "written": repl, "env": env}
+					p, err := (*types.Project)(nil), error(nil)
+					lit := lit
+					if form >= 3 {
+						m := form - 3
+						if !litIncLoaded[m] {
+							litInc[m], litIncErr[m] = c08loadAfterInclude(base, mapToYAML(doc), nil, m)
+							litIncLoaded[m] = true
+						}
+						if litIncErr[m] != nil {
+							return core.Outcome{Class: "lit-rejected", Trivial: true}
+						}
+						lit = litInc[m]
+						p, err = c08loadAfterInclude(base, varDoc, env, m)
+					} else {
+						p, err = c08loadDoc(base, varDoc, env)
+					}
+					sample := map[string]any{"doc": dn, "path": pathStr, "literal": lf.val, "written": repl, "env": env, "form": form}
 					mustLoad := isStr
 					if !isStr {
 						sp := append([]string{}, lf.path...)
